@@ -87,6 +87,13 @@ func (w *World) Probe(name string) {
 	w.mu.Unlock()
 }
 
+// Fault counts a harness-level fault that fired (network faults are counted by simnet).
+func (w *World) Fault(kind string) {
+	w.mu.Lock()
+	w.Res.Faults[kind]++
+	w.mu.Unlock()
+}
+
 // ProbeAdd adds n to a reach probe.
 func (w *World) ProbeAdd(name string, n int) {
 	w.mu.Lock()
